@@ -20,103 +20,7 @@ fn rec_hash<T: Hash>(t: &T) -> Vec<u8> {
     h.0
 }
 
-trait BM: Copy + core::fmt::Debug + core::fmt::Display + PartialEq + Hash + 'static {
-    const N: usize;
-    const NAME: &'static str;
-    fn mk(l: &[bool]) -> Self;
-    fn ctor(path: &str, l: &[bool]) -> Option<Self>;
-    /// the same mask from several producers: the constructor, and lane-by-lane `set` starting from all-false and from all-true
-    fn variants(l: &[bool]) -> Vec<Self> {
-        let mut r = vec![Self::mk(l)];
-        r.extend(Self::by_set(l));
-        r
-    }
-    fn by_set(l: &[bool]) -> Vec<Self> {
-        let mut a = Self::mk(&vec![false; Self::N]);
-        let mut b = Self::mk(&vec![true; Self::N]);
-        for i in 0..Self::N { a.set_(i, l[i]); b.set_(i, l[i]); }
-        vec![a, b]
-    }
-    fn bools(self) -> Vec<bool>;
-    fn u32s(self) -> Vec<u32>;
-    fn bitmask_(self) -> u32;
-    fn any_(self) -> bool;
-    fn all_(self) -> bool;
-    fn test_(&self, i: usize) -> bool;
-    fn set_(&mut self, i: usize, v: bool);
-    fn not_(self) -> Self;
-    fn bin(self, op: &str, b: Self) -> Self;
-}
-
-macro_rules! impl_bm {
-    ($B:ident, $N:literal, $free:ident, [$($i:literal),+] $(, variants = $var:expr)?) => {
-        impl BM for $B {
-            const N: usize = $N;
-            const NAME: &'static str = stringify!($B);
-            fn mk(l: &[bool]) -> Self { $B::new($(l[$i]),+) }
-            fn ctor(path: &str, l: &[bool]) -> Option<Self> {
-                Some(match path {
-                    "new" => $B::new($(l[$i]),+),
-                    "splat" => $B::splat(l[0]),
-                    "from_array" => $B::from_array([$(l[$i]),+]),
-                    "from_trait" => <$B as From<[bool; $N]>>::from([$(l[$i]),+]),
-                    "free_fn" => $free($(l[$i]),+),
-                    _ => return None,
-                })
-            }
-            $( fn variants(l: &[bool]) -> Vec<Self> { ($var)(l) } )?
-            fn bools(self) -> Vec<bool> { let a: [bool; $N] = self.into(); a.to_vec() }
-            fn u32s(self) -> Vec<u32> { let a: [u32; $N] = self.into(); a.to_vec() }
-            fn bitmask_(self) -> u32 { self.bitmask() }
-            fn any_(self) -> bool { self.any() }
-            fn all_(self) -> bool { self.all() }
-            fn test_(&self, i: usize) -> bool { self.test(i) }
-            fn set_(&mut self, i: usize, v: bool) { self.set(i, v) }
-            fn not_(self) -> Self { !self }
-            fn bin(self, op: &str, b: Self) -> Self {
-                match op {
-                    "and" => self & b,
-                    "or" => self | b,
-                    "xor" => self ^ b,
-                    "and_assign" => { let mut t = self; t &= b; t }
-                    "or_assign" => { let mut t = self; t |= b; t }
-                    "xor_assign" => { let mut t = self; t ^= b; t }
-                    _ => panic!("op {op}"),
-                }
-            }
-        }
-    };
-}
-impl_bm!(BVec2, 2, bvec2, [0, 1]);
-impl_bm!(BVec3, 3, bvec3, [0, 1, 2]);
-impl_bm!(BVec4, 4, bvec4, [0, 1, 2, 3]);
-#[cfg(feature = "scalar-math")]
-impl_bm!(BVec4A, 4, bvec4a, [0, 1, 2, 3]);
-#[cfg(feature = "scalar-math")]
-type V4Mask = BVec4;
-#[cfg(not(feature = "scalar-math"))]
-type V4Mask = BVec4A;
-#[cfg(not(feature = "scalar-math"))]
-impl_bm!(BVec4A, 4, bvec4a, [0, 1, 2, 3], variants = |l: &[bool]| {
-    // the same mask produced by a comparison of vectors
-    let f = |b: bool| if b { 1.0f32 } else { 0.0 };
-    let mut r = vec![BVec4A::new(l[0], l[1], l[2], l[3]),
-         Vec4::new(f(l[0]), f(l[1]), f(l[2]), f(l[3])).cmpeq(Vec4::ONE),
-         Vec4::new(f(l[0]), f(l[1]), f(l[2]), f(l[3])).cmpgt(Vec4::splat(0.5))];
-    r.extend(<BVec4A as BM>::by_set(l));
-    r
-});
-impl_bm!(BVec3A, 3, bvec3a, [0, 1, 2], variants = |l: &[bool]| {
-    // the same visible lanes with the hidden fourth lane false / true / whatever new() leaves
-    let f = |b: bool| if b { 1.0f32 } else { 0.0 };
-    let one = Vec3A::from_vec4(Vec4::ONE);
-    let mut r = vec![BVec3A::new(l[0], l[1], l[2]),
-         Vec3A::from_vec4(Vec4::new(f(l[0]), f(l[1]), f(l[2]), 0.0)).cmpeq(one),
-         Vec3A::from_vec4(Vec4::new(f(l[0]), f(l[1]), f(l[2]), 1.0)).cmpeq(one),
-         Vec3A::from_vec4(Vec4::new(f(l[0]), f(l[1]), f(l[2]), f32::NAN)).cmpne(Vec3A::from_vec4(Vec4::new(0.0, 0.0, 0.0, 0.0)))];
-    r.extend(<BVec3A as BM>::by_set(l));
-    r
-});
+use hx::bm::*;
 
 fn bools(v: &Value) -> Vec<bool> {
     v.as_array().unwrap().iter().map(|x| x.as_bool().unwrap()).collect()
